@@ -8,12 +8,65 @@ ROOT = os.path.dirname(os.path.dirname(os.path.abspath(__file__)))
 # id -> (technique, level text, level note, design ref)
 CHECKS = {
     "C01": ("Hypothesis property test vs. exact Cox-de Boor reference evaluator",
-            "Generated curves (all multiplicity patterns, degree 0..5, rational/polynomial, "
-            "Fraction/float) evaluated at every knot, both ends, interior and outside points and "
-            "compared with an independent exact reference; exact equality per case in the Fraction "
-            "profile, 1e-9 in the float profile.",
-            "Trusted: nurbsverif/oracle.py (textbook recursion, exact rationals). Bounded sizes: "
-            "degree <= 5, <= 5 distinct interior knots.", "DESIGN.md 4/C01"),
+            "Generated curves (all multiplicity patterns, degree 0..5, rational/polynomial, Fraction/float) evaluated at every knot, both ends, interior and outside points and compared with an independent exact reference; exact equality per case in the Fraction profile, 1e-9 in the float profile.",
+            "Trusted: nurbsverif/oracle.py (textbook recursion, exact rationals). Bounded sizes: degree <= 5, <= 5 distinct interior knots.", "DESIGN.md 4/C01"),
+    "C02": ("Hypothesis property test vs. reference basis table + sign/support/partition invariants",
+            "For generated knot vectors every sub-degree table f[:, j] is compared with the exact Cox-de Boor reference at all knots/ends/interior points; index forms (negative, slices, f[i], f(u)) must select rows of that table; independent invariants (non-negative, support, sum to one).",
+            "Trusted: oracle.basis_all. Degree <= 5, <= 4 distinct interior knots.", "DESIGN.md 4/C02"),
+    "C03": ("model-based operation histories (generated as data) + constructor input search vs. list model",
+            "Generated histories of every public KnotVector operation with valid and invalid arguments are run against a list model; after every step a well-formedness predicate and all queries are checked against the element list; rejected requests must leave the object unchanged; constructor facet enumerates small-alphabet lists.",
+            "Trusted: the list model in props/c03.py. Histories <= 50 steps, degree <= 3 initially. TypeError accepted for non-numeric arguments (the suite documents it).", "DESIGN.md 4/C03"),
+    "C04": ("Hypothesis property test; exact same-function decision + unique-result oracle",
+            "knot_insert on generated curves/multisets: resulting knot vector = multiset union, same function decided exactly per case by sampling deg+1 (2deg+1 rational) points per span in exact arithmetic, control points equal the unique representation computed by the reference; invalid requests must raise ValueError and leave the curve unchanged.",
+            "Trusted: oracle.same_function / represent. Degree <= 4, <= 4 interior knots.", "DESIGN.md 4/C04"),
+    "C05": ("Hypothesis property test; exact removability (in_space) + exact L2 deviation",
+            "knot_remove on reference-refined and generic curves: must succeed exactly when removable; otherwise either ValueError+unchanged or deviation within the stated bound (exact integral); tolerance=None keeps values at remaining knots.",
+            "Trusted: oracle.represent/in_space/integral. Degree <= 4.", "DESIGN.md 4/C05"),
+    "C06": ("Hypothesis property test; knot model + exact same-function decision",
+            "degree_increase / degree setter on generated curves: multiplicities +t, same function (exact); degree_decrease restores elevated curves exactly, refuses non-representable ones leaving them unchanged, tolerance=None keeps knot values.",
+            "Trusted: oracle. Degree <= 3 before elevation, t <= 2 (3 thorough).", "DESIGN.md 4/C06"),
+    "C07": ("Hypothesis property test; exact restriction/junction oracle",
+            "split pieces compared exactly with the original on each sub-interval (knots, clamping, function); joins of split pieces and of independently generated adjacent pairs compared exactly with both operands; junction multiplicity must be minimal.",
+            "Trusted: oracle. Degree <= 4.", "DESIGN.md 4/C07"),
+    "C08": ("Hypothesis metamorphic test: pointwise identity decided exactly",
+            "All curve/curve and curve/scalar operators on generated same-interval pairs (different degrees, shared knots with different multiplicities, rational/polynomial): result compared pointwise with op(A(u),B(u)) at enough exact sample points per span to decide the identity; operands unchanged.",
+            "Trusted: oracle.ceval. Degrees <= 3, <= 3 interior knots each.", "DESIGN.md 4/C08"),
+    "C09": ("Hypothesis property test vs. exact derivative of span polynomials",
+            "Derivate(C) compared with the exact derivative of each span polynomial (quotient rule for rational) at interior points of every span; interval preserved; operand unchanged.",
+            "Trusted: oracle.local_poly. Tolerance 1e-9 relative (library computes difference coefficients in float64).", "DESIGN.md 4/C09"),
+    "C10": ("Hypothesis call histories in forked pristine processes + exact moment conditions + closed-form integrals",
+            "Quadrature rule histories (family, kind, n) executed in fresh processes: moment exactness after each call, equality with the single-call answer; Integrate.scalar/function/lenght vs. exact closed forms on non-uniform knot vectors.",
+            "Trusted: exact Fraction moments; float families to 1e-10 for bounded n.", "DESIGN.md 4/C10"),
+    "C11": ("Hypothesis property test; exact L2 orthogonality and error functional",
+            "fit_curve on generated (source, target) pairs: residual orthogonal to every target basis function (exact integrals), reproduction when in space, error = c * int r^2, interpolation constraints.",
+            "Trusted: oracle.integral_product, nullspace. Polynomial curves only.", "DESIGN.md 4/C11"),
+    "C12": ("Hypothesis property test; exact normal equations with reference collocation matrix",
+            "fit_points / fit_function: B^T(BQ-Z)=0 exactly with the reference collocation matrix; interpolation when square; reproduction of in-space data; too few points rejected.",
+            "Trusted: oracle.basis_row, rank. Admissible node sets constructed by Schoenberg-Whitney and verified by exact rank.", "DESIGN.md 4/C12"),
+    "C13": ("Hypothesis differential test: == vs. exact same-function decision",
+            "A == B for reference-refined / perturbed / rational variants in both operand orders; expected answer decided exactly by the reference; != negation; non-curves False; operands unchanged.",
+            "Trusted: oracle.refine_state/same_function. Ambiguous band [1e-10,1e-8] skipped and counted.", "DESIGN.md 4/C13"),
+    "C14": ("Hypothesis refinement histories (as data) vs. exact minimal form",
+            "Minimal curves refined by random insert/elevate sequences, then clean calls in any order: function preserved exactly, idempotent, clean() returns exactly the minimal knot vector and control points computed by the reference.",
+            "Trusted: oracle.minimal_form. Polynomial curves.", "DESIGN.md 4/C14"),
+    "C15": ("model-based operation histories over three curves (two sharing a KnotVector) with structural invariant + snapshots",
+            "Histories of every public Curve mutator/non-mutator with valid and invalid arguments: structural invariant after every step, untouched operands, atomic failures, independence of copies and of curves built from one KnotVector object.",
+            "Trusted: snapshots by value. Does not assert which requests must raise.", "DESIGN.md 4/C15"),
+    "C16": ("Hypothesis differential test across number representations + type walk",
+            "Same structural case as Fraction / float / np.float64 / minimal point type through the listed operations: exact profile must stay rational and equal the reference; float profiles agree to 1e-9.",
+            "Trusted: oracle. Well-conditioned inputs only for float agreement.", "DESIGN.md 4/C16"),
+    "C17": ("Hypothesis property test vs. multiplicity model + representability cross-check",
+            "U|V and U&V on generated same-interval pairs compared with the per-knot model; commutative, idempotent, operands unchanged, different intervals rejected; random splines over U and V are representable on U|V and U|V is coarsest.",
+            "Trusted: oracle.union_model + represent.", "DESIGN.md 4/C17"),
+    "C18": ("exhaustive sweep over (p, n, cls) + Hypothesis for weights/affine maps/invariance",
+            "Generators compared with closed forms for every (degree, npts, class) in range (exhaustive), limits exactly (0,1); shift/scale/normalize keep structure and map knots affinely; basis functions invariant under reparametrisation.",
+            "Trusted: closed forms. p <= 6, n <= p+60 (quick) / p+400 (thorough).", "DESIGN.md 4/C18"),
+    "C19": ("Hypothesis property test vs. exact point-segment distances; iteration bound for termination",
+            "Polylines: returned parameters sorted, inside, equidistant, at the exact minimum distance; general curves: structural claims, stationarity, on-curve points; termination bounded by evaluation count.",
+            "Trusted: exact rational geometry. Global minimality asserted for polylines only.", "DESIGN.md 4/C19"),
+    "C20": ("Hypothesis property test vs. exact segment-intersection classification",
+            "Segment/polyline pairs classified exactly (crossing / disjoint): returned pairs must equal the exact crossing set, () when disjoint; soundness of every returned pair for all curve classes.",
+            "Trusted: exact rational geometry. Completeness asserted for transversal crossings of polylines only.", "DESIGN.md 4/C20"),
 }
 
 NOT_APPLICABLE = {
@@ -24,8 +77,10 @@ ALL = [f"C{i:02d}" for i in range(1, 21)]
 
 def main():
     checks = []
+    built = [pid for pid in ALL
+             if os.path.exists(os.path.join(ROOT, "nurbsverif", "props", pid.lower() + ".py"))]
     for pid in ALL:
-        if pid not in CHECKS:
+        if pid not in built:
             continue
         tech, text, note, ref = CHECKS[pid]
         checks.append({
@@ -41,7 +96,7 @@ def main():
         })
     na = [{"property_id": pid,
            "reason": NOT_APPLICABLE.get(pid, "check not built yet in this revision (planned, see DESIGN.md section 4)")}
-          for pid in ALL if pid not in CHECKS]
+          for pid in ALL if pid not in built]
     manifest = {
         "version": 1,
         "setup_cmd": "./setup.sh",
